@@ -201,6 +201,7 @@ def columns_layout(context, box, bottom_space, skip_stack, containing_block,
                             context, column_box, inf, column_skip_stack,
                             containing_block, True, [], [], [],
                             discard=False, max_lines=None)[0]
+                        next_box_height = 0
                         for child in next_box.children:
                             if child.is_in_normal_flow():
                                 next_box_height = child.margin_height()
